@@ -174,7 +174,13 @@ func (c *Ctx) Note(format string, a ...interface{}) {
 }
 
 func (c *Ctx) PartNote(format string, a ...interface{}) {
-	c.ps.Notes = append(c.ps.Notes, fmt.Sprintf(format, a...))
+	n := fmt.Sprintf(format, a...)
+	for _, x := range c.ps.Notes {
+		if x == n {
+			return
+		}
+	}
+	c.ps.Notes = append(c.ps.Notes, n)
 }
 
 // NotExhaustive marks the current part as capped.
